@@ -369,6 +369,65 @@ def run_failure(args):
     return _dedup(viols), ('failed', fault, session), 0
 
 
+def run_readd(args):
+    """A refused reload (complete section of the running neighbor with other routes, fault in a second neighbor), then a
+    file without the neighbor (it is removed), then a file with it again and fewer routes: the session that comes up then
+    must carry exactly the routes of that last file."""
+    old, new, fault, third = args
+    viols = []
+    with World(config(old)) as wd:
+        env = Env(wd, hold=30, script=[], config_name='active')
+        env.step = 0
+        if not establish(wd, env):
+            raise core.HarnessError('could not establish')
+        wd.advance(0.4)
+        wd.api_write(b'peer * announce route 10.9.0.0/24 next-hop 2.2.2.2 med 5\n')
+        wd.settle()
+        wd.advance(0.3)
+        lines = config(new, extra=SECOND).split('\n')
+        body_idx = [i for i, l in enumerate(lines) if l.strip()]
+        i = body_idx[-2]   # the last line of the second neighbor's body
+        lines[i] = FAULTS[fault](lines[i])
+        wd.set_config('\n'.join(lines))
+        wd.signal('RELOAD')
+        wd.settle()
+        wd.advance(0.6)
+        if not str(wd.cfg.error):
+            return [], ('readd-accepted', fault), 0
+        # the neighbor leaves the configuration ...
+        wd.set_config(CFG.split('neighbor 127.0.0.2')[0] + SECOND)
+        wd.signal('RELOAD')
+        wd.settle()
+        wd.advance(1.0)
+        if str(wd.cfg.error):
+            return [('readd:valid-file-refused', f'the file without the neighbor was refused after a failed reload: {str(wd.cfg.error)[:160]}')], ('readd-refused',), 0
+        # ... and comes back with fewer routes
+        wd.set_config(config(third))
+        wd.signal('RELOAD')
+        wd.settle()
+        wd.advance(0.6)
+        if str(wd.cfg.error):
+            return [('readd:valid-file-refused', f'the file with the neighbor again was refused: {str(wd.cfg.error)[:160]}')], ('readd-refused',), 0
+        before = {s.index for s in wd.sockets}
+        for k in range(40):
+            env.step += 1
+            a = env.default_action()
+            if a == 'time' and env.fsm() == 'ESTABLISHED':
+                break
+            env.do(a)
+        wd.advance(1.5)
+        sm = edev.summarize(wd, env)
+        cur = env.current()
+        if cur is None or env.fsm() != 'ESTABLISHED':
+            return [('readd:no-session', f'no session with the neighbor that was put back (fsm {env.fsm()})')], ('readd-none',), 0
+        t, bad = peer_table(sm, cur.index)
+    want = dict(table_of(third))
+    if t != want:
+        extra_r = sorted(k for k in t if k not in want)
+        viols.append(('readd:wrong-table' + (':stale-routes' if extra_r else ''), f'neighbor removed then put back with {sorted(want)}: the new session carries {sorted(t)} (old file {old}, refused file {new}, fault {fault})'))
+    return _dedup(viols), ('readd', fault, len(t)), 0
+
+
 def _dedup(viols):
     seen = set()
     outv = []
@@ -454,11 +513,22 @@ def plan(tier):
     return succ, fail
 
 
+def readd_plan(tier):
+    jobs = []
+    thirds = [(None, 'x', None), ('x', None, None)]
+    pairs = [(SELS[15], SELS[1]), (SELS[1], SELS[10]), (SELS[5], SELS[15])] if tier == 'quick' else [(o, n) for o in SELS[1::3] for n in SELS[1::4]]
+    for old, new in pairs:
+        for fault in FAULTS:
+            for third in thirds:
+                jobs.append((old, new, fault, third))
+    return jobs
+
+
 def run(ctx: core.Ctx) -> None:
     succ, fail = plan(ctx.tier)
     ctx.rule = ('successful reloads: all 256 (old, new) pairs over {A absent/x/y/x-with-other-next-hop} x {B absent/present} x {IPv6 C absent/present} with the session up; subsets with the session down, with an API route announced / announced then withdrawn, '
                 'and with neighbor-level changes (hold time -> re-establish, neighbor added, neighbor removed); failing reloads: every non-empty line of the new file in turn replaced by a garbage token, an unbalanced brace, or a value that makes a value parser raise struct.error, plus a missing file, session up and down, and the same faults when the running configuration has no helper program but the refused file defines one; '
-                'non-trivial = distinct (session, change, table size / fault) outcome')
+                'sequences refused file -> file without the neighbor -> file with it again and fewer routes; non-trivial = distinct (session, change, table size / fault) outcome')
     ctx.assumptions += ['reference peer table from every UPDATE on the wire since session start', 'snapshot = neighbors, processes, helper programs started, per-peer neighbor identity/hold/routes, Adj-RIB-Out cache and queues, FSM, connections']
     pool = mp.Pool(min(16, os.cpu_count() or 1))
     try:
@@ -478,6 +548,15 @@ def run(ctx: core.Ctx) -> None:
             ctx.add_to_set('outcomes', outcome)
             for sig, what in viols:
                 ctx.violation(sig, f'[old {job[0]} new {job[1]} session {job[4]}] {what}', {'kind': 'failure', 'job': [list(job[0]), list(job[1]), job[2], job[3], job[4]]})
+        rjobs = readd_plan(ctx.tier)
+        rres = pool.map(run_readd, rjobs, chunksize=2)
+        for job, (viols, outcome, n) in zip(rjobs, rres):
+            ctx.count('executions')
+            ctx.count('transitions', 3)
+            ctx.add_to_set('outcomes', outcome)
+            for sig, what in viols:
+                ctx.violation(sig, what, {'kind': 'readd', 'job': [list(job[0]), list(job[1]), job[2], list(job[3])]})
+        ctx.coverage_extra['remove_then_add_back_sequences'] = len(rjobs)
         ctx.sample({'old': list(succ[37][0]), 'new': list(succ[37][1]), 'session': succ[37][2]})
         ctx.sample({'failing': list(fail[5][1]), 'line': fail[5][2], 'fault': fail[5][3]})
         ctx.counters['states'] = ctx.set_size('outcomes')
@@ -491,6 +570,9 @@ def run(ctx: core.Ctx) -> None:
 
 def replay(case):
     j = case['job']
+    if case['kind'] == 'readd':
+        viols, o, n = run_readd((tuple(j[0]), tuple(j[1]), j[2], tuple(j[3])))
+        return [{'signature': s, 'what': wh} for s, wh in viols]
     if case['kind'] == 'success':
         viols, o, n = run_success((tuple(j[0]), tuple(j[1]), j[2], j[3], j[4]))
     else:
